@@ -418,3 +418,7 @@ Definition check13 (k : case13) : bool :=
   | None => true
   | Some r => eq_rw (rewrite_nodes (fst (fst r)) (snd (fst r)) A) (snd r)
   end.
+
+(* a history: partition; change the aggregate model; partition again (same ARM object or a fresh wrapper).  The
+   model has no per-object state: every round is checked against the model applied to the graph of that round. *)
+Definition check13_hist (l : list case13) : bool := forallb check13 l.
